@@ -7,6 +7,7 @@ import sys
 
 VERIF = os.path.dirname(os.path.dirname(os.path.abspath(__file__)))
 EXPECT = {
+    "c11_first_completed": ["C13", "C11"],
     "d1_empty_outputs": ["C01"], "d2_abs_not_normalised": ["C03", "C15", "C04"], "d4_summary_empty": ["C05"], "d5_sge_newline": ["C08", "C06", "C07", "C17"],
     "d6_lsf_prov": ["C08"], "d12_release_without_acquire": ["C12"], "d13_unexpected_error_nonfinal": ["C13", "C14"], "d13b_kill_exited": ["C13"], "d15_cancel_unknown": ["C17"],
 }
